@@ -411,9 +411,6 @@ func (u *Upgrader) Upgrade(w http.ResponseWriter, r *http.Request, responseHeade
 				wsc = NewServerConn(u, vt, subprotocol, compress, false)
 				wsc.Engine = engine
 				wsc.Execute = nbc.Execute
-				if engine.EpollMod == nbio.EPOLLET && engine.EPOLLONESHOT == nbio.EPOLLONESHOT {
-					wsc.Execute = nbhttp.SyncExecutor
-				}
 				waitOpened(wsc)
 				if nbhttpConn != nil {
 					nbhttpConn.Parser = nil
@@ -503,9 +500,6 @@ func (u *Upgrader) Upgrade(w http.ResponseWriter, r *http.Request, responseHeade
 			wsc = NewServerConn(u, nbc, subprotocol, compress, false)
 			wsc.Engine = engine
 			wsc.Execute = nbc.Execute
-			if engine.EpollMod == nbio.EPOLLET && engine.EPOLLONESHOT == nbio.EPOLLONESHOT {
-				wsc.Execute = nbhttp.SyncExecutor
-			}
 			waitOpened(wsc)
 			if nbhttpConn != nil {
 				nbhttpConn.Parser = nil
